@@ -211,6 +211,30 @@ fn oracle_enc(l: Limits, payload: &[u8], full: &[u8], pending: bool, snaps: &[Sn
             v.push(format!("C02 {} bytes produced for {} bytes of input, bound for these limits is {}", full.len(), n, bound));
         }
     }
+    // exact length: one header byte, plus two per chunk that hit its limit (walk the produced chunks)
+    {
+        let (mut pos, mut first, mut fulls, mut ok) = (0usize, true, 0usize, true);
+        while pos < full.len() {
+            let (c, limit) = if first {
+                pos += 1;
+                (full[pos - 1] as usize, l.mi)
+            } else if pos + 2 <= full.len() {
+                pos += 2;
+                (full[pos - 2] as usize + 253 * full[pos - 1] as usize, l.ms)
+            } else {
+                ok = false;
+                break;
+            };
+            if c == limit {
+                fulls += 1;
+            }
+            pos += c;
+            first = false;
+        }
+        if ok && pos == full.len() && full.len() != n + 1 + 2 * fulls {
+            v.push(format!("C02 {} bytes produced for {} bytes of input with {} full chunks (expected len + 1 + 2*full)", full.len(), n, fulls));
+        }
+    }
     // C01: the real decoder gives the input back, in one call and under a random plan
     match real_decode(l, full, None) {
         Ok(d) if d == payload => {}
